@@ -38,6 +38,9 @@ def base_dataset(kind, rng, side):
         disp = (-2, 2) if kind % 3 else (np.full((rows, cols), -3.0), np.full((rows, cols), 1.0))
     ds = build.make_image(data, mask=(rng.choice([0, 1, 2], size=(rows, cols)) if kind in (1, 2, 5) else None), disp=disp,
                           bands=[f"b{i}" for i in range(nb)] if nb > 1 else None)
+    if kind in (3, 5) and nb > 1:
+        # band names are Python str whatever the container of the coordinate (object-dtype array, as pandas / the API may give)
+        ds = ds.assign_coords(band_im=np.array([f"b{i}" for i in range(nb)], dtype=object))
     if kind in (2, 4):
         ds.coords["band_classif"] = ["x", "y"]
         ds["classif"] = xr.DataArray(rng.randint(0, 2, size=(2, rows, cols)).astype(np.int16), dims=["band_classif", "row", "col"])
